@@ -68,6 +68,9 @@ ZSTD_compressSubBlock_literal(const HUF_CElt* hufTable,
     assert(litSize > 0);
     assert(hufMetadata->hType == set_compressed || hufMetadata->hType == set_repeat);
 
+    RETURN_ERROR_IF(dstSize < lhSize + ((writeEntropy && hufMetadata->hType == set_compressed) ? hufMetadata->hufDesSize : 0),
+                    dstSize_tooSmall, "not enough room for the literals header and the Huffman table description");
+
     if (writeEntropy && hufMetadata->hType == set_compressed) {
         ZSTD_memcpy(op, hufMetadata->hufDesBuffer, hufMetadata->hufDesSize);
         op += hufMetadata->hufDesSize;
